@@ -52,7 +52,7 @@ def task_program(rng, i):
             ep = w["read"]["ep"]
             if ep == "readDirs" and rng.chance(0.4):
                 ep = "readDirsHistory"
-            for gk in ("global_dirs", "global_pre", "global_late"):
+            for gk in ("global_dirs", "global_pre", "global_late", "satisfied"):
                 w["read"].pop(gk, None)       # the process-wide setters are documented as global: single-task prologue only
             blocks.append({"kind": "layered", "read": w["read"], "ep": ep, "cb": rng.chance(0.5)})
             nodes += w["nodes"]
